@@ -53,6 +53,21 @@ fn alphabet(dist: bool) -> Vec<Item> {
         v.push(Item { name: n, frames: vec![(pt(m), Exp::Msg(m.clone()))] });
     }
     v.push(Item { name: "tick", frames: vec![(vec![0, 0, 0, 0], Exp::Nothing)] });
+    // every operation of the protocol table once (tag, arity, payload?) - used in length-1 sequences
+    let kinds: [(&'static str, i64, usize, bool); 22] = [
+        ("k4_unlink", 4, 3, false), ("k5_node_link", 5, 1, false), ("k7_group_leader", 7, 3, false), ("k8_exit2", 8, 4, false), ("k12_send_tt", 12, 4, true), ("k13_exit_tt", 13, 5, false),
+        ("k16_reg_send_tt", 16, 5, true), ("k18_exit2_tt", 18, 5, false), ("k19_monitor_p", 19, 4, false), ("k20_demonitor_p", 20, 4, false), ("k22_send_sender", 22, 3, true), ("k23_send_sender_tt", 23, 4, true),
+        ("k24_payload_exit", 24, 3, true), ("k25_payload_exit_tt", 25, 4, true), ("k26_payload_exit2", 26, 3, true), ("k27_payload_exit2_tt", 27, 4, true), ("k28_payload_monitor_p_exit", 28, 4, true),
+        ("k29_spawn_request", 29, 6, true), ("k31_spawn_reply", 31, 5, false), ("k33_alias_send", 33, 3, true), ("k34_alias_send_tt", 34, 4, true), ("k36_unlink_id_ack", 36, 4, false),
+    ];
+    for (name, tag, arity, has_payload) in kinds {
+        let mut c = vec![RefVal::int(tag)];
+        for i in 1..arity {
+            c.push(match (tag, i) { (36, 1) => RefVal::Int(BigI::from_u64(u64::MAX)), (_, 1) => peer_pid(3), (_, 2) => my_pid(1), (_, 3) => RefVal::Ref { node: "peer@127.0.0.1".into(), creation: 5, ids: vec![7, 8, 9] }, _ => RefVal::Tuple(vec![RefVal::atom("f"), RefVal::int(i as i64)]) });
+        }
+        let m = DistMsg { control: RefVal::Tuple(c), payload: if has_payload { Some(RefVal::list(vec![RefVal::atom("arg"), RefVal::int(tag)], RefVal::Nil)) } else { None } };
+        v.push(Item { name, frames: vec![(pt(&m), Exp::Msg(m.clone()))] });
+    }
     v.push(Item { name: "junk_bytes", frames: vec![(frame(&[1, 2, 3], 4), Exp::OneErr)] });
     v.push(Item { name: "truncated_term", frames: vec![(frame(&[112, 131, 104, 3, 97], 4), Exp::OneErr)] });
     v.push(Item { name: "wrong_marker", frames: vec![(frame(&[200, 1, 2], 4), Exp::OneErr)] });
@@ -201,7 +216,7 @@ pub fn run(rep: &Report) -> Value {
         let mut frontier: Vec<Vec<usize>> = vec![vec![]];
         for _ in 0..maxlen {
             let mut next = vec![];
-            for s in &frontier { for i in 0..n { let mut s2 = s.clone(); s2.push(i); next.push(s2); } }
+            for s in &frontier { for i in 0..n { if (!s.is_empty() || maxlen > 2) && alpha[i].name.starts_with('k') && !thorough { continue; } if !s.is_empty() && alpha[i].name.starts_with('k') { continue; } let mut s2 = s.clone(); s2.push(i); next.push(s2); } }
             seqs.extend(next.iter().cloned());
             frontier = next;
         }
@@ -240,6 +255,6 @@ pub fn run(rep: &Report) -> Value {
         "configurations": parts,
         "distinct_outcomes": total.distinct_outcomes,
         "unstable_failures_not_reported": total.unstable,
-        "rule": "every sequence of <= 2 (3 thorough; 3 over a reduced alphabet in quick) peer frames from an alphabet of 14-21 frames (8 pass-through control kinds with payloads up to 2 KiB, tick, 5 malformed frames; with distribution headers negotiated also header messages in identity and non-identity cache slots, an atom-less header, messages cut into 2 and 3 fragments by the reference fragmenter, malformed fragment frames), sent whole, byte by byte and with the first frame split at every offset, followed by a final valid message; results of the real receive loop compared with the reference receiver; both receive entry points",
+        "rule": "every sequence of <= 2 (3 thorough; 3 over a reduced alphabet in quick) peer frames from an alphabet of 14-21 frames (8 pass-through control kinds with payloads up to 2 KiB (+ the remaining 22 operations of the protocol table as single-frame cases), tick, 5 malformed frames; with distribution headers negotiated also header messages in identity and non-identity cache slots, an atom-less header, messages cut into 2 and 3 fragments by the reference fragmenter, malformed fragment frames), sent whole, byte by byte and with the first frame split at every offset, followed by a final valid message; results of the real receive loop compared with the reference receiver; both receive entry points",
     })
 }
